@@ -378,6 +378,8 @@ class MultiIndex(LExpr):
         else:
             stride = [np.prod(sizes[i:]) for i in range(dim)] + [LiteralInt(1)]
             self.global_index = Sum(n * sym for n, sym in zip(stride[1:], symbols))
+        # Formatted as its global index: as an operand it needs the parentheses of that expression
+        self.precedence = self.global_index.precedence
 
     @property
     def dim(self):
